@@ -531,6 +531,29 @@ def replay_h_find_max_part(a, b, c, pa, pb, pc, swap):
     return False, "fresh"
 
 
+def h_find_max_part_order(a: int, b: int, c: int, n: int) -> bool:
+    """
+    pre: 0 <= a <= 4 and 0 <= b <= 4 and 0 <= c <= 4 and 1 <= n <= 3
+    post: __return__
+    """
+    # small part ids in ANY order (row groups re-ordered by a sort key, holes left by removals, numbers shared between
+    # directories): the next part number exceeds every referenced id
+    ids = [a, b, c][:n]
+    rgs = [_rg(1, 1, PATHS[i]) for i in ids]
+    nxt = writer.find_max_part(rgs)
+    return all(nxt > i for i in ids)
+
+
+def replay_h_find_max_part_order(a, b, c, n):
+    ids = [a, b, c][:n]
+    import fastparquet.writer as w
+    nxt = w.find_max_part([_rg(1, 1, "part.%d.parquet" % i) for i in ids])
+    if not all(nxt > i for i in ids):
+        return True, "find_max_part over row groups referencing part ids %r (in this order) gives %d: the next " \
+                     "append would overwrite an existing part file" % (ids, nxt)
+    return False, "fresh"
+
+
 # directory prefixes a partitioned dataset puts before the part file name: the part number is the one in the file name
 DIRS = ["", "k=1/", "release=1.0.3/", "host=10.0.0.7/", "a=1.5/", "part.7.d/k=2/", "year=2020/month=1.5/"]
 PATHS2 = [[d + "part.%d.parquet" % i for i in range(0, 130)] for d in DIRS]
@@ -857,3 +880,94 @@ def h_append_other_columns_simple(i0: int, i1: int, i2: int, n: int, old_foot: i
 
 def replay_h_append_other_columns_simple(i0, i1, i2, n, old_foot, foot):
     return replay_h_append_column_check(i0, i1, i2, n, True, False)
+
+
+# ------------------------------------------ C07/C08: an append into a partitioned dataset keeps the dataset's layout ---
+LABELS = ["a", "b", "1", "x.y"]
+
+
+class _KeyGroup:
+    empty = False
+
+    def __getitem__(self, cols):
+        return self
+
+    def __len__(self):
+        return 2
+
+
+class _KeyFrame:
+    """one row group's frame as partition_on_columns sees it: groupby yields (key, group) pairs"""
+
+    def __init__(self, columns, keys):
+        self.columns_, self.keys = columns, keys
+
+    def groupby(self, by, observed=False):
+        return [(k, _KeyGroup()) for k in self.keys]
+
+    def __iter__(self):
+        return iter(self.columns_)
+
+
+def h_append_scheme(drill: bool, i_old: int, i_new: int, second: bool) -> bool:
+    """
+    pre: 0 <= i_old < 4 and 0 <= i_new < 4
+    post: __return__
+    """
+    # a dataset partitioned on one text column, laid out hive-style (k=<label>/) or drill-style (<label>/), holding
+    # part.0 under label i_old; one row group with label i_new (and optionally the old label) is appended through the
+    # real ParquetFile.write_row_groups -> write_multi -> partition_on_columns.  The new part files follow the
+    # dataset's own layout, so that old and new paths together still read as one scheme with one label column.
+    old, new = LABELS[i_old], LABELS[i_new]
+    col = "dir0" if drill else "k"
+    pre = "" if drill else "k="
+    fs = SymFS({"d/%s%s/part.0.parquet" % (pre, old): 100, "d/_metadata": 50}, -1)
+    fmd = _fmd([_rg(10, 90, "%s%s/part.0.parquet" % (pre, old))])
+    pf = _PFShim(fmd, {col: [old]}, fs)
+    pf.file_scheme = "drill" if drill else "hive"
+    keys = [new] + ([old] if second and old != new else [])
+    made = []
+
+    def make_part_file(f, data, schema, compression=None, fmd=None, stats=True):
+        made.append(getattr(f, "path", None))
+        return _rg(2, 1)
+    saved = (writer.make_part_file,)
+    writer.make_part_file = make_part_file
+    writer.sorted = lambda gb: list(gb)
+    try:
+        pf.write_row_groups([_KeyFrame([col, "a"], keys)], open_with=fs.open_with, mkdirs=fs.mkdirs, write_fmd=False)
+    finally:
+        writer.make_part_file = saved[0]
+        del writer.sorted
+    paths = [rg.columns[0].file_path for rg in fmd.row_groups]
+    want = ["%s%s/part.0.parquet" % (pre, old)] + ["%s%s/part.1.parquet" % (pre, k) for k in keys]
+    if paths != want or made != ["d/" + p for p in want[1:]]:
+        return False
+    scheme, cats = api.paths_to_cats(paths, None)
+    return scheme == ("drill" if drill else "hive") and list(cats) == [col]
+
+
+def replay_h_append_scheme(drill, i_old, i_new, second):
+    import shutil, tempfile
+    import pandas as pd
+    import fastparquet
+    old, new = LABELS[i_old], LABELS[i_new]
+    keys = [new] + ([old] if second and old != new else [])
+    d = tempfile.mkdtemp(prefix="c07-")
+    try:
+        dn = os.path.join(d, "ds")
+        df = pd.DataFrame({"k": [old, old], "a": [1, 2]})
+        fastparquet.write(dn, df, file_scheme="drill" if drill else "hive", partition_on=["k"])
+        pf = fastparquet.ParquetFile(dn)
+        col = "dir0" if drill else "k"
+        nd = pd.DataFrame({col: keys, "a": [10 + j for j in range(len(keys))]})
+        pf.write_row_groups(nd)
+        out = fastparquet.ParquetFile(dn).to_pandas()
+        got = sorted((str(k), int(a)) for k, a in zip(out[col], out["a"]))
+        want = sorted([(old, 1), (old, 2)] + [(k, 10 + j) for j, k in enumerate(keys)])
+        if got != want:
+            return True, "%s dataset with label %r after appending labels %r reads as %r, expected %r" % (
+                "drill" if drill else "hive", old, keys, got, want)
+        return False, "appended rows carry their labels"
+    finally:
+        shutil.rmtree(d, ignore_errors=True)
